@@ -619,6 +619,7 @@ func (e *Engine) execTypeSwitch(s *ast.TypeSwitchStmt, st *State, label string) 
 
 // modified computes the local variables assigned and the heap names written inside nodes.
 type modset struct {
+	ghost map[types.Object]bool
 	vars  map[types.Object]bool
 	heaps map[string]bool
 	all   bool
@@ -626,7 +627,7 @@ type modset struct {
 }
 
 func (e *Engine) modifiedIn(nodes ...ast.Node) *modset {
-	m := &modset{vars: map[types.Object]bool{}, heaps: map[string]bool{}}
+	m := &modset{vars: map[types.Object]bool{}, heaps: map[string]bool{}, ghost: map[types.Object]bool{}}
 	var lhs func(x ast.Expr)
 	lhs = func(x ast.Expr) {
 		x = unparen(x)
@@ -795,6 +796,11 @@ func (e *Engine) callMods(c *ast.CallExpr, m *modset) {
 			}
 			return
 		}
+		if id, ok := unparen(c.Fun).(*ast.Ident); ok {
+			if obj := e.pk.Info.ObjectOf(id); obj != nil {
+				m.ghost[obj] = true
+			}
+		}
 		m.all = true
 		return
 	}
@@ -847,6 +853,9 @@ func (m *modset) union(o *modset) {
 	for k := range o.heaps {
 		m.heaps[k] = true
 	}
+	for k := range o.ghost {
+		m.ghost[k] = true
+	}
 	m.all = m.all || o.all
 	m.alloc = m.alloc || o.alloc
 }
@@ -865,6 +874,18 @@ func (e *Engine) havocLoop(st *State, m *modset, extraHeaps []string) {
 		v := e.havocValue("h_"+obj.Name(), obj.Type())
 		e.refBound(st, v)
 		st.vars[obj] = v
+	}
+	for obj := range m.ghost {
+		nk := e.ghostKey("ncalls", obj)
+		if n, ok := st.vars[nk]; ok {
+			v := e.havocValue("h_ncalls", n.Typ)
+			e.assume("true", e.le(n.T, v.T))
+			st.vars[nk] = v
+			lk := e.ghostKey("lastret", obj)
+			if l, ok := st.vars[lk]; ok {
+				st.vars[lk] = e.havocValue("h_lastret", l.Typ)
+			}
+		}
 	}
 	if m.all {
 		e.havocAll(st)
@@ -920,7 +941,10 @@ func (e *Engine) checkInvariants(st *State, ls *LoopSpec, ord int, kind string, 
 }
 
 func (e *Engine) obligeNamed(st *State, name, kind, goal string, p token.Pos, desc, prop string) {
-	if e.spec > 0 || st == nil || goal == "true" {
+	if e.spec > 0 || st == nil {
+		return
+	}
+	if goal == "true" && kind == "pre" {
 		return
 	}
 	full := fmt.Sprintf("%s.%s/%s", pkgShort(e.pk.Path), e.c.Name, e.inlPrefix()+name)
@@ -933,8 +957,12 @@ func (e *Engine) obligeNamed(st *State, name, kind, goal string, p token.Pos, de
 	if prop == "" {
 		prop = e.c.primary()
 	}
-	e.obligs = append(e.obligs, &Oblig{Name: full, Unit: e.c.Name, Kind: kind, Pos: e.pos(p), PC: st.pc, Goal: goal,
-		NAssumes: len(e.assumes), NDecls: len(e.decls), Desc: desc, Prop: prop})
+	o := &Oblig{Name: full, Unit: e.c.Name, Kind: kind, Pos: e.pos(p), PC: st.pc, Goal: goal,
+		NAssumes: len(e.assumes), NDecls: len(e.decls), Desc: desc, Prop: prop}
+	if goal == "true" {
+		o.Status, o.Solver = "unsat", "syntactic"
+	}
+	e.obligs = append(e.obligs, o)
 }
 
 func (e *Engine) inlPrefix() string {
